@@ -875,7 +875,7 @@ def run_c20(t):
 # ------------------------------------------------------------------ C17
 BAD_CLASSES = ["len_mismatch", "nonfinite", "nonbinary_ts", "ctx_presence", "ctx_rows", "ctx_width", "add_dup", "add_none", "add_nan",
                "add_inf", "rem_unknown", "warm_nondict", "warm_q_int", "warm_q_range", "warm_keys", "too_few_rows", "bad_types",
-               "predict_ctx_presence", "ctx_1d", "predict_ctx_width", "add_unhashable"]
+               "predict_ctx_presence", "ctx_1d", "predict_ctx_width", "add_unhashable", "rem_last"]
 
 def history_dims(base, upto):
     d = None; arms = list(base["arms"]); fitted = False; nrows = 0
@@ -912,6 +912,15 @@ def gen_c17(rng, tier):
         base = {"arms": arms, "lp": (kind, 0.0 if kind == "lingreedy" else 1.0, 0.0, False, True), "np": None, "seed": rng.randint(0, 10**6),
                 "ops": [("fit", [3, 3], [1.0, 2.0], [[1.0, 0.0], [0.0, 1.0]])], "label": "int", "mode": "tol", "reward_style": "smallint"}
         return {"base": base, "pos": 1, "cls": "singular_l2_zero", "seed2": rng.randint(0, 10**9)}
+    if rng.random() < 0.04:
+        # a bandit with a single arm, whose removal empties the arm list
+        a0 = rng.randint(0, 9)
+        kind = rng.choice(["popularity", "softmax", "greedy", "ucb", "thompson"])
+        lp = (kind, None) if kind == "thompson" else ((kind, gen.gen_hp(rng, kind)) if kind in ("greedy", "ucb", "softmax") else (kind,))
+        n = rng.randint(1, 4)
+        base = {"arms": [a0], "lp": lp, "np": None, "seed": rng.randint(0, 10**6), "ops": [("fit", [a0] * n, [float(rng.randint(0, 1)) for _ in range(n)], None)],
+                "label": rng.choice(["int", "str"]), "mode": "exact", "reward_style": "binary"}
+        return {"base": base, "pos": 1, "cls": "rem_last", "seed2": rng.randint(0, 10**9)}
     if rng.random() < 0.08:
         # the FIRST arm of the list never observed (its tree / regression / history is still empty), then a training call of another
         # width that names it together with trained arms: a width check that looks at one arm only, or in arm order, must not let
@@ -977,6 +986,11 @@ def bad_call(mab, label, inv, base, cls, rng, d, arms, fitted, all_arms=False):
         elif cls == "add_unhashable":
             # an arm of a type that cannot be a dictionary key (a list, a dict): the policies raise when they file it
             mab.add_arm(rng.choice([[3, 4], {"a": 1}, [label(97)]]))
+        elif cls == "rem_last":
+            # removing the only arm: accepted by most policies (a bandit without arms), but a policy that renormalises or
+            # takes a maximum over its arms must not raise half-way
+            if len(la) != 1: return "n/a"
+            mab.remove_arm(la[0])
         elif cls == "rem_unknown":
             mab.remove_arm(label(97))
         elif cls == "warm_nondict":
